@@ -76,6 +76,25 @@ def let_substitutions(root):
     return {k: v for k, v in inits.items() if counts.get(k, 0) == 1}
 
 
+def matches_as_eq(e):
+    """`matches!(x, Enum::V)` (a two-arm match with literal bool bodies, a fieldless variant and a wildcard) is the same
+    test as `x == Enum::V`: returns (description 'PartialEq::eq(x, V)', truth of that test on the first arm) or None"""
+    if not (isinstance(e, dict) and e.get("k") == "match" and len(e.get("arms", [])) == 2):
+        return None
+    a0, a1 = e["arms"]
+    if a0.get("g") or a1.get("g"):
+        return None
+    b0, b1 = thir.peel(a0["b"]), thir.peel(a1["b"])
+    if not all(isinstance(b, dict) and b.get("k") == "lit" and isinstance(b.get("b"), bool) for b in (b0, b1)) or b0["b"] == b1["b"]:
+        return None
+    p0 = a0["p"]
+    while p0.get("k") in ("deref", "derefpat"):
+        p0 = p0["p"]
+    if p0.get("k") != "variant" or p0.get("sub") or thir.pat_str(a1["p"]) != "_":
+        return None
+    return "PartialEq::eq(%s, %s)" % (desc(e["e"]), p0["v"]), b0["b"]
+
+
 def desc(e):
     e0 = e
     while isinstance(e, dict) and e.get("k") in ("ref", "deref", "coerce", "cast", "rawref"):
@@ -127,6 +146,10 @@ def desc(e):
             br = e["t"] if c["b"] else e.get("e")
             return desc(br) if br is not None else "()"
         return "if"
+    if k == "match":
+        me = matches_as_eq(e)
+        if me is not None:
+            return me[0] if me[1] else "Not " + me[0]
     if k == "block":
         if e.get("e") is not None and not e.get("s"):
             return desc(e["e"])
@@ -375,7 +398,10 @@ class Enum:
                 # literal condition (cfg!(..)): only one branch exists
                 return self.paths(e["t"] if cl["b"] else e.get("e"))
             res = []
-            cps = self.paths(c)
+            if matches_as_eq(cl) is not None:
+                cps = self.paths(cl["e"])       # only the scrutinee is evaluated; the test itself becomes a branch event below
+            else:
+                cps = self.paths(c)
             is_let = isinstance(c, dict) and c.get("k") == "letx"
             for p in cps:
                 if p.out != "val":
